@@ -457,44 +457,100 @@ pub fn trace_lr(b: &Built<u32>, input: &[usize], max_steps: usize) -> String {
 }
 
 /// A Yacc-style LR parser can reduce forever without consuming input when conflict resolution
-/// (default or by precedence) prefers an empty/unit reduction inside a hidden left recursion.
-/// If an infinite run exists, then from some point on the stack never shrinks below some height
-/// whose state is `s`; the rest of the run only depends on (s, lookahead). So: simulate from the
-/// one-element stack `[s]` for every state and token; an over-long run that never pops below its
-/// base is reported as a witness. (May over-approximate: `s` need not be reachable with that
-/// lookahead. Used to *restrict domains*, never as an oracle.)
+/// (default or by precedence) prefers an empty/unit reduction inside a hidden left recursion, or
+/// when the grammar has a derivation cycle. `table_loop_witness_raw` searches the table for such
+/// a run (see there). It may over-approximate (the base configuration need not be reachable
+/// with that lookahead), so it is used to *restrict domains*, never as an oracle.
 pub fn table_loop_witness<T: 'static + PrimInt + Unsigned + Hash + Debug>(
     b: &Built<T>,
 ) -> Option<(usize, usize)>
 where
     usize: AsPrimitive<T>,
 {
+    table_loop_witness_raw(&b.grm, &b.st, usize::from(b.sg.all_states_len()))
+}
+
+pub fn table_loop_witness_raw<T: 'static + PrimInt + Unsigned + Hash + Debug>(
+    grm: &YaccGrammar<T>,
+    st: &StateTable<T>,
+    nstates: usize,
+) -> Option<(usize, usize)>
+where
+    usize: AsPrimitive<T>,
+{
     use lrtable::Action;
-    let nstates = usize::from(b.sg.all_states_len());
+    // If an infinite run of reductions exists, consider the stacks after each complete step:
+    // from some point on their height never drops below some h+1, and the state at height h
+    // (call it q) is never popped again. At a moment of minimal height the stack ends in
+    // [q, x] with x a successor of q (goto or shift target), and the rest of the run depends
+    // only on (q, x, lookahead). So: simulate from every two-element stack [q, x] for every
+    // token, allowing pops down to - but not including - q.
     let limit = 200 + 20 * nstates;
-    for s in b.sg.iter_stidxs() {
-        for t in b.grm.iter_tidxs() {
-            let mut stack = vec![s];
-            let mut steps = 0usize;
-            loop {
-                match b.st.action(*stack.last().unwrap(), t) {
-                    Action::Reduce(p) => {
-                        let n = b.grm.prod(p).len();
-                        if n > stack.len() - 1 {
-                            break; // needs context below the base
+    for q in (0..nstates).map(|x| lrtable::StIdx::<T>(x.as_())) {
+        let mut succ: Vec<lrtable::StIdx<T>> = vec![];
+        for r in grm.iter_rules() {
+            if let Some(x) = st.goto(q, r) {
+                if !succ.contains(&x) {
+                    succ.push(x);
+                }
+            }
+        }
+        for t in grm.iter_tidxs() {
+            if let Action::Shift(x) = st.action(q, t) {
+                if !succ.contains(&x) {
+                    succ.push(x);
+                }
+            }
+        }
+        for x in succ {
+            for t in grm.iter_tidxs() {
+                let mut stack = vec![q, x];
+                let mut steps = 0usize;
+                loop {
+                    match st.action(*stack.last().unwrap(), t) {
+                        Action::Reduce(p) => {
+                            let n = grm.prod(p).len();
+                            if n > stack.len() - 1 {
+                                break; // would pop q: needs context below the base
+                            }
+                            stack.truncate(stack.len() - n);
+                            match st.goto(*stack.last().unwrap(), grm.prod_to_rule(p)) {
+                                Some(g) => stack.push(g),
+                                None => break,
+                            }
                         }
-                        stack.truncate(stack.len() - n);
-                        match b.st.goto(*stack.last().unwrap(), b.grm.prod_to_rule(p)) {
-                            Some(g) => stack.push(g),
-                            None => break,
-                        }
+                        _ => break,
                     }
-                    _ => break,
+                    steps += 1;
+                    if steps > limit {
+                        return Some((usize::from(q), usize::from(t)));
+                    }
                 }
-                steps += 1;
-                if steps > limit {
-                    return Some((usize::from(s), usize::from(t)));
+            }
+        }
+    }
+    // the start configuration [start] itself
+    for t in grm.iter_tidxs() {
+        let mut stack = vec![st.start_state()];
+        let mut steps = 0usize;
+        loop {
+            match st.action(*stack.last().unwrap(), t) {
+                Action::Reduce(p) => {
+                    let n = grm.prod(p).len();
+                    if n > stack.len() - 1 {
+                        break;
+                    }
+                    stack.truncate(stack.len() - n);
+                    match st.goto(*stack.last().unwrap(), grm.prod_to_rule(p)) {
+                        Some(g) => stack.push(g),
+                        None => break,
+                    }
                 }
+                _ => break,
+            }
+            steps += 1;
+            if steps > limit {
+                return Some((usize::from(st.start_state()), usize::from(t)));
             }
         }
     }
@@ -677,3 +733,97 @@ where
 /// + 1, ..)`), i.e. memory is quadratic in the cost level reached, and an unsuccessful search
 /// climbs one cost level every few steps (20000 steps reached cost 1400 and 14 GB).
 pub const RECOVERY_CAP: u64 = 1500;
+
+/// Canonical text of a parse result in implementation indices (used to compare two grammars /
+/// tables that are supposed to be observationally identical). With recovery only the first
+/// error is printed with its repairs as a sorted set (which repair is applied among equally
+/// ranked ones is documented as non-deterministic, so later errors may legitimately differ).
+pub fn parse_digest<T: 'static + PrimInt + Unsigned + Hash + Debug>(
+    grm: &YaccGrammar<T>,
+    st: &StateTable<T>,
+    toks: &[usize],
+    layout: &Layout,
+    recover: bool,
+) -> String
+where
+    usize: AsPrimitive<T>,
+{
+    fn show<T: 'static + PrimInt + Unsigned + Hash + Debug>(n: &Node<DefaultLexeme<T>, T>, out: &mut String)
+    where
+        usize: AsPrimitive<T>,
+    {
+        match n {
+            Node::Term { lexeme } => {
+                let id: usize = num_traits::cast(lexeme.tok_id()).unwrap();
+                out.push_str(&format!("t{}@{}+{}{}", id, lexeme.span().start(), lexeme.span().len(), if lexeme.faulty() { "!" } else { "" }));
+            }
+            Node::Nonterm { ridx, nodes } => {
+                out.push_str(&format!("(r{}", usize::from(*ridx)));
+                for k in nodes {
+                    out.push(' ');
+                    show(k, out);
+                }
+                out.push(')');
+            }
+        }
+    }
+    let lexer = VLexer::<T>::new(toks, layout);
+    if recover {
+        lrpar::verif_hooks::set_budget_ms(Some(86_400_000));
+        lrpar::verif_hooks::set_expansion_cap(RECOVERY_CAP);
+    }
+    let pb = RTParserBuilder::new(grm, st).recoverer(if recover { RecoveryKind::CPCTPlus } else { RecoveryKind::None });
+    let (tree, errs) = pb.parse_generictree(&lexer);
+    let hit = if recover {
+        let h = lrpar::verif_hooks::cap_hit();
+        lrpar::verif_hooks::set_expansion_cap(u64::MAX);
+        h
+    } else {
+        false
+    };
+    if hit {
+        return "cap-hit".to_string();
+    }
+    let mut out = String::new();
+    if !recover {
+        match &tree {
+            Some(t) => show(t, &mut out),
+            None => out.push_str("none"),
+        }
+    } else {
+        out.push_str(if errs.is_empty() { "clean " } else { "errors " });
+        if errs.is_empty() {
+            if let Some(t) = &tree {
+                show(t, &mut out);
+            }
+        }
+    }
+    if let Some(LexParseError::ParseError(pe)) = errs.first() {
+        let l = pe.lexeme();
+        let id: usize = num_traits::cast(l.tok_id()).unwrap();
+        // the state number is deliberately left out: state numbering may legitimately differ
+        // between storage widths (finding C20-state-numbering-depends-on-width)
+        let _ = pe.stidx();
+        out.push_str(&format!(" | first error at t{}@{}+{}", id, l.span().start(), l.span().len()));
+        let mut reps: Vec<String> = pe
+            .repairs()
+            .iter()
+            .map(|seq| {
+                seq.iter()
+                    .map(|r| match r {
+                        ParseRepair::Insert(t) => format!("I{}", usize::from(*t)),
+                        ParseRepair::Delete(l) => format!("D@{}", l.span().start()),
+                        ParseRepair::Shift(l) => format!("S@{}", l.span().start()),
+                    })
+                    .collect::<Vec<_>>()
+                    .join(",")
+            })
+            .collect();
+        reps.sort();
+        out.push_str(&format!(" repairs {:?}", reps));
+    }
+    if !recover {
+        out.push_str(&format!(" | {} errors", errs.len()));
+    }
+    out
+}
